@@ -679,6 +679,12 @@ def run(chk, db, tier):
     chk.guard("R8", rule_r8, db)
     chk.guard("R9", rule_r9, db)
     chk.guard("R10", rule_r10, db, model, enc, dec)
+    # prerequisite for "a decoded timestamp is encoded as the same instant": what the literal-`Z` formats print is in UTC (decided for C14)
+    from . import c14
+    from ..report import Sub
+    sub = Sub(chk, "C14")
+    sub.rule("R1", "UTC typestate: a format whose description ends in a literal UTC designator is applied only to values normalised to UTC")
+    sub.guard("R1", c14.rule_r1, db)
 
 
 META = {
